@@ -92,6 +92,17 @@ let hd default = function
 | [] -> default
 | x :: _ -> x
 
+(** val nth : nat -> 'a1 list -> 'a1 -> 'a1 **)
+
+let rec nth n0 l default =
+  match n0 with
+  | O -> (match l with
+          | [] -> default
+          | x :: _ -> x)
+  | S m -> (match l with
+            | [] -> default
+            | _ :: t -> nth m t default)
+
 (** val nth_error : 'a1 list -> nat -> 'a1 option **)
 
 let rec nth_error l = function
@@ -102,11 +113,12 @@ let rec nth_error l = function
            | [] -> None
            | _ :: l0 -> nth_error l0 n1)
 
-(** val rev : 'a1 list -> 'a1 list **)
+(** val rev_append : 'a1 list -> 'a1 list -> 'a1 list **)
 
-let rec rev = function
-| [] -> []
-| x :: l' -> app (rev l') (x :: [])
+let rec rev_append l l' =
+  match l with
+  | [] -> l'
+  | a :: l0 -> rev_append l0 (a :: l')
 
 (** val concat : 'a1 list list -> 'a1 list **)
 
@@ -665,6 +677,11 @@ module Z =
 
 type str = n list
 
+(** val frev : 'a1 list -> 'a1 list **)
+
+let frev l =
+  rev_append l []
+
 (** val str_eqb : str -> str -> bool **)
 
 let rec str_eqb a b =
@@ -847,7 +864,7 @@ let rec drop_while f s = match s with
 (** val drop_while_end : (n -> bool) -> str -> str **)
 
 let drop_while_end f s =
-  rev (drop_while f (rev s))
+  frev (drop_while f (frev s))
 
 (** val repeat_cp : n -> nat -> str **)
 
@@ -954,6 +971,44 @@ let apply_range items r =
                    then Ok []
                    else slice_range items s_idx e_idx)))
 
+(** val resolve_index_m : z -> z -> z **)
+
+let resolve_index_m idx len =
+  let resolved = if Z.ltb idx Z0 then Z.add len idx else idx in
+  Z.max Z0 (Z.min resolved (Z.max len Z0))
+
+(** val apply_range_m : 'a1 list -> range -> 'a1 list **)
+
+let apply_range_m items r =
+  let len = Z.of_nat (length items) in
+  if Z.eqb len Z0
+  then []
+  else (match r with
+        | Index idx ->
+          let i = Z.min (resolve_index_m idx len) (Z.sub len (Zpos XH)) in
+          (match nth_error items (Z.to_nat i) with
+           | Some x -> x :: []
+           | None -> [])
+        | Range (a, b, inc) ->
+          let s_idx =
+            match a with
+            | Some s -> resolve_index_m s len
+            | None -> Z0
+          in
+          if Z.leb len s_idx
+          then []
+          else let e0 =
+                 match b with
+                 | Some e -> resolve_index_m e len
+                 | None -> len
+               in
+               let e1 = if inc then Z.add e0 (Zpos XH) else e0 in
+               let e_idx = Z.min e1 len in
+               if Z.leb e_idx s_idx
+               then []
+               else firstn (Z.to_nat (Z.sub e_idx s_idx))
+                      (skipn (Z.to_nat s_idx) items))
+
 (** val norm : z -> z -> z **)
 
 let norm i len =
@@ -996,12 +1051,12 @@ let select r l =
 
 let rec split_go sep s skip cur =
   match s with
-  | [] -> (rev cur) :: []
+  | [] -> (frev cur) :: []
   | c :: s' ->
     (match skip with
      | O ->
        if is_prefix sep s
-       then (rev cur) :: (split_go sep s' (sub (length sep) (S O)) [])
+       then (frev cur) :: (split_go sep s' (sub (length sep) (S O)) [])
        else split_go sep s' O (c :: cur)
      | S k -> split_go sep s' k cur)
 
@@ -1015,10 +1070,10 @@ let split s sep = match sep with
 
 let rec split_char_go c s cur =
   match s with
-  | [] -> (rev cur) :: []
+  | [] -> (frev cur) :: []
   | d :: s' ->
     if N.eqb c d
-    then (rev cur) :: (split_char_go c s' [])
+    then (frev cur) :: (split_char_go c s' [])
     else split_char_go c s' (d :: cur)
 
 (** val split_char : str -> n -> str list **)
@@ -1094,6 +1149,10 @@ type op =
 type value =
 | VStr of str
 | VList of str list
+
+type kind =
+| KStr
+| KList
 
 (** val insert_sorted : str -> str list -> str list **)
 
@@ -1308,6 +1367,26 @@ let debug_value_take =
 let debug_value_by_chars =
   true
 
+(** val debug_ws_limit : n **)
+
+let debug_ws_limit =
+  Npos (XO XH)
+
+(** val debug_literal_limit : n **)
+
+let debug_literal_limit =
+  Npos (XO (XO (XI (XO XH))))
+
+(** val debug_literal_take : n **)
+
+let debug_literal_take =
+  Npos (XI (XI (XI XH)))
+
+(** val debug_literal_by_chars : bool **)
+
+let debug_literal_by_chars =
+  true
+
 (** val raw_split : str -> str -> str list **)
 
 let raw_split input sep =
@@ -1339,7 +1418,7 @@ let get_cached_regex e p =
 (** val ascii_reverse : str -> str option **)
 
 let ascii_reverse s =
-  if is_ascii s then Some (rev s) else None
+  if is_ascii s then Some (frev s) else None
 
 (** val ascii_trim : str -> str option **)
 
@@ -1395,7 +1474,7 @@ let impl_single e o v sep =
          pbind (pmapM (fun s -> get_cached_split s sp) l) (fun ps -> Ret
            (concat ps))) (fun parts ->
       ret_o
-        (bind (apply_range parts r) (fun result ->
+        (bind (Ok (apply_range_m parts r)) (fun result ->
           match r with
           | Index _ ->
             (match result with
@@ -1449,9 +1528,9 @@ let impl_single e o v sep =
       (match v with
        | VStr s ->
          if is_ascii s
-         then bind (apply_range (utf8 s) r) (fun bytes -> Ok ((VStr bytes),
-                sep))
-         else bind (apply_range s r) (fun cs -> Ok ((VStr cs), sep))
+         then bind (Ok (apply_range_m (utf8 s) r)) (fun bytes -> Ok ((VStr
+                bytes), sep))
+         else bind (Ok (apply_range_m s r)) (fun cs -> Ok ((VStr cs), sep))
        | VList _ -> Err)
   | Append t ->
     ret_o (match v with
@@ -1491,7 +1570,8 @@ let impl_single e o v sep =
     ret_o
       (match v with
        | VStr _ -> Err
-       | VList l -> bind (apply_range l r) (fun l' -> Ok ((VList l'), sep)))
+       | VList l ->
+         bind (Ok (apply_range_m l r)) (fun l' -> Ok ((VList l'), sep)))
   | Map _ -> ret_o Err
   | Sort d ->
     ret_o
@@ -1501,15 +1581,15 @@ let impl_single e o v sep =
          Ok ((VList
            (match d with
             | Asc -> sort_asc l
-            | Desc -> rev (sort_asc l))), sep))
+            | Desc -> frev (sort_asc l))), sep))
   | Reverse ->
     ret_o (Ok
       ((match v with
         | VStr s ->
           VStr (match ascii_reverse s with
                 | Some r -> r
-                | None -> rev s)
-        | VList l -> VList (rev l)), sep))
+                | None -> frev s)
+        | VList l -> VList (frev l)), sep))
   | Unique ->
     ret_o
       (match v with
@@ -1751,11 +1831,11 @@ let rec spec_step e o v sep =
   | Sort d ->
     (match d with
      | Asc -> list_only v sort_asc sep
-     | Desc -> list_only v (fun l -> rev (sort_asc l)) sep)
+     | Desc -> list_only v (fun l -> frev (sort_asc l)) sep)
   | Reverse ->
     Ok ((match v with
-         | VStr s -> VStr (rev s)
-         | VList l -> VList (rev l)), sep)
+         | VStr s -> VStr (frev s)
+         | VList l -> VList (frev l)), sep)
   | Unique -> list_only v unique sep
   | Pad (w, c, d) -> str_only v (pad_str w c d) sep
   | RegexExtract (p, g) ->
@@ -1775,6 +1855,642 @@ let rec spec_steps e ops v sep =
 
 let spec_run e ops x =
   spec_steps e ops (VStr x) default_sep
+
+(** val sep_after : op -> str -> str **)
+
+let sep_after o sep =
+  match o with
+  | Split (sp, _) -> sp
+  | Join sp -> sp
+  | _ -> sep
+
+(** val last_sep_from : str -> op list -> str **)
+
+let rec last_sep_from sep = function
+| [] -> sep
+| o :: ops' -> last_sep_from (sep_after o sep) ops'
+
+(** val last_sep : op list -> str **)
+
+let last_sep ops =
+  last_sep_from default_sep ops
+
+(** val kind_step : kind -> op -> kind option **)
+
+let kind_step k = function
+| Split (_, r) ->
+  (match r with
+   | Index _ -> Some KStr
+   | Range (_, _, _) -> Some KList)
+| Join _ -> Some KStr
+| Filter _ -> Some k
+| FilterNot _ -> Some k
+| Slice _ -> (match k with
+              | KStr -> None
+              | KList -> Some KList)
+| Map _ -> (match k with
+            | KStr -> None
+            | KList -> Some KList)
+| Sort _ -> (match k with
+             | KStr -> None
+             | KList -> Some KList)
+| Reverse -> Some k
+| Unique -> (match k with
+             | KStr -> None
+             | KList -> Some KList)
+| _ -> (match k with
+        | KStr -> Some KStr
+        | KList -> None)
+
+(** val infer_from : kind -> op list -> kind option **)
+
+let rec infer_from k = function
+| [] -> Some k
+| o :: ops' ->
+  (match kind_step k o with
+   | Some k' -> infer_from k' ops'
+   | None -> None)
+
+(** val infer : op list -> kind option **)
+
+let infer ops =
+  infer_from KStr ops
+
+(** val well_typed_op : op -> bool **)
+
+let rec well_typed_op = function
+| Map body ->
+  let rec go k = function
+  | [] -> true
+  | o' :: b' ->
+    (&&) (well_typed_op o')
+      (match kind_step k o' with
+       | Some k' -> go k' b'
+       | None -> false)
+  in go KStr body
+| _ -> true
+
+(** val well_typed_from : kind -> op list -> bool **)
+
+let rec well_typed_from k = function
+| [] -> true
+| o :: ops' ->
+  (&&) (well_typed_op o)
+    (match kind_step k o with
+     | Some k' -> well_typed_from k' ops'
+     | None -> false)
+
+(** val well_typed : op list -> bool **)
+
+let well_typed ops =
+  well_typed_from KStr ops
+
+type section =
+| Lit of str
+| Sec of op list
+
+type template = { t_raw : str; t_sections : section list; t_debug : bool }
+
+(** val optz_eqb : z option -> z option -> bool **)
+
+let optz_eqb a b =
+  match a with
+  | Some x -> (match b with
+               | Some y -> Z.eqb x y
+               | None -> false)
+  | None -> (match b with
+             | Some _ -> false
+             | None -> true)
+
+(** val range_eqb : range -> range -> bool **)
+
+let range_eqb a b =
+  match a with
+  | Index i -> (match b with
+                | Index j -> Z.eqb i j
+                | Range (_, _, _) -> false)
+  | Range (a1, b1, i1) ->
+    (match b with
+     | Index _ -> false
+     | Range (a2, b2, i2) ->
+       (&&) ((&&) (optz_eqb a1 a2) (optz_eqb b1 b2)) (eqb i1 i2))
+
+(** val tdir_eqb : tdir -> tdir -> bool **)
+
+let tdir_eqb a b =
+  match a with
+  | TBoth -> (match b with
+              | TBoth -> true
+              | _ -> false)
+  | TLeft -> (match b with
+              | TLeft -> true
+              | _ -> false)
+  | TRight -> (match b with
+               | TRight -> true
+               | _ -> false)
+
+(** val sdir_eqb : sdir -> sdir -> bool **)
+
+let sdir_eqb a b =
+  match a with
+  | Asc -> (match b with
+            | Asc -> true
+            | Desc -> false)
+  | Desc -> (match b with
+             | Asc -> false
+             | Desc -> true)
+
+(** val pdir_eqb : pdir -> pdir -> bool **)
+
+let pdir_eqb a b =
+  match a with
+  | PLeft -> (match b with
+              | PLeft -> true
+              | _ -> false)
+  | PRight -> (match b with
+               | PRight -> true
+               | _ -> false)
+  | PBoth -> (match b with
+              | PBoth -> true
+              | _ -> false)
+
+(** val optn_eqb : n option -> n option -> bool **)
+
+let optn_eqb a b =
+  match a with
+  | Some x -> (match b with
+               | Some y -> N.eqb x y
+               | None -> false)
+  | None -> (match b with
+             | Some _ -> false
+             | None -> true)
+
+(** val op_eqb : op -> op -> bool **)
+
+let rec op_eqb a b =
+  match a with
+  | Split (s1, r1) ->
+    (match b with
+     | Split (s2, r2) -> (&&) (str_eqb s1 s2) (range_eqb r1 r2)
+     | _ -> false)
+  | Join s1 -> (match b with
+                | Join s2 -> str_eqb s1 s2
+                | _ -> false)
+  | Replace (a1, b1, c1) ->
+    (match b with
+     | Replace (a2, b2, c2) ->
+       (&&) ((&&) (str_eqb a1 a2) (str_eqb b1 b2)) (str_eqb c1 c2)
+     | _ -> false)
+  | Upper -> (match b with
+              | Upper -> true
+              | _ -> false)
+  | Lower -> (match b with
+              | Lower -> true
+              | _ -> false)
+  | Trim (c1, d1) ->
+    (match b with
+     | Trim (c2, d2) -> (&&) (str_eqb c1 c2) (tdir_eqb d1 d2)
+     | _ -> false)
+  | Substring r1 ->
+    (match b with
+     | Substring r2 -> range_eqb r1 r2
+     | _ -> false)
+  | Append s1 -> (match b with
+                  | Append s2 -> str_eqb s1 s2
+                  | _ -> false)
+  | Prepend s1 -> (match b with
+                   | Prepend s2 -> str_eqb s1 s2
+                   | _ -> false)
+  | Surround s1 -> (match b with
+                    | Surround s2 -> str_eqb s1 s2
+                    | _ -> false)
+  | StripAnsi -> (match b with
+                  | StripAnsi -> true
+                  | _ -> false)
+  | Filter p1 -> (match b with
+                  | Filter p2 -> str_eqb p1 p2
+                  | _ -> false)
+  | FilterNot p1 -> (match b with
+                     | FilterNot p2 -> str_eqb p1 p2
+                     | _ -> false)
+  | Slice r1 -> (match b with
+                 | Slice r2 -> range_eqb r1 r2
+                 | _ -> false)
+  | Map b1 ->
+    (match b with
+     | Map b2 ->
+       let rec go l1 l2 =
+         match l1 with
+         | [] -> (match l2 with
+                  | [] -> true
+                  | _ :: _ -> false)
+         | x :: l1' ->
+           (match l2 with
+            | [] -> false
+            | y :: l2' -> (&&) (op_eqb x y) (go l1' l2'))
+       in go b1 b2
+     | _ -> false)
+  | Sort d1 -> (match b with
+                | Sort d2 -> sdir_eqb d1 d2
+                | _ -> false)
+  | Reverse -> (match b with
+                | Reverse -> true
+                | _ -> false)
+  | Unique -> (match b with
+               | Unique -> true
+               | _ -> false)
+  | Pad (w1, c1, d1) ->
+    (match b with
+     | Pad (w2, c2, d2) ->
+       (&&) ((&&) (N.eqb w1 w2) (N.eqb c1 c2)) (pdir_eqb d1 d2)
+     | _ -> false)
+  | RegexExtract (p1, g1) ->
+    (match b with
+     | RegexExtract (p2, g2) -> (&&) (str_eqb p1 p2) (optn_eqb g1 g2)
+     | _ -> false)
+
+(** val ops_eqb : op list -> op list -> bool **)
+
+let rec ops_eqb l1 l2 =
+  match l1 with
+  | [] -> (match l2 with
+           | [] -> true
+           | _ :: _ -> false)
+  | x :: l1' ->
+    (match l2 with
+     | [] -> false
+     | y :: l2' -> (&&) (op_eqb x y) (ops_eqb l1' l2'))
+
+type memo = ((str * op list) * str) list
+
+(** val memo_lookup : memo -> str -> op list -> str option **)
+
+let rec memo_lookup m i ops =
+  match m with
+  | [] -> None
+  | p :: m' ->
+    let (p0, out) = p in
+    let (i', ops') = p0 in
+    if (&&) (str_eqb i' i) (ops_eqb ops' ops)
+    then Some out
+    else memo_lookup m' i ops
+
+(** val fast_single_split : str -> str -> range -> str prog **)
+
+let fast_single_split input sep r =
+  pbind (get_cached_split input sep) (fun parts ->
+    let selected = apply_range_m parts r in
+    Ret
+    (match selected with
+     | [] -> []
+     | x :: l -> (match l with
+                  | [] -> x
+                  | _ :: _ -> join sep selected)))
+
+(** val apply_section :
+    env -> bool -> str -> op list -> memo -> (str outcome * memo) prog **)
+
+let apply_section e dbg input ops m =
+  match ops with
+  | [] ->
+    (match memo_lookup m input ops with
+     | Some out -> Ret ((Ok out), m)
+     | None ->
+       pbind (impl_run e dbg ops input) (fun r ->
+         match r with
+         | Ok out -> Ret ((Ok out), (((input, ops), out) :: m))
+         | Err -> Ret (Err, m)
+         | Panic -> Ret (Panic, m)))
+  | o :: l ->
+    (match o with
+     | Split (sep, r) ->
+       (match l with
+        | [] ->
+          pbind (fast_single_split input sep r) (fun s -> Ret ((Ok s), m))
+        | _ :: _ ->
+          (match memo_lookup m input ops with
+           | Some out -> Ret ((Ok out), m)
+           | None ->
+             pbind (impl_run e dbg ops input) (fun r0 ->
+               match r0 with
+               | Ok out -> Ret ((Ok out), (((input, ops), out) :: m))
+               | Err -> Ret (Err, m)
+               | Panic -> Ret (Panic, m))))
+     | Join _ ->
+       (match memo_lookup m input ops with
+        | Some out -> Ret ((Ok out), m)
+        | None ->
+          pbind (impl_run e dbg ops input) (fun r ->
+            match r with
+            | Ok out -> Ret ((Ok out), (((input, ops), out) :: m))
+            | Err -> Ret (Err, m)
+            | Panic -> Ret (Panic, m)))
+     | Replace (_, _, _) ->
+       (match memo_lookup m input ops with
+        | Some out -> Ret ((Ok out), m)
+        | None ->
+          pbind (impl_run e dbg ops input) (fun r ->
+            match r with
+            | Ok out -> Ret ((Ok out), (((input, ops), out) :: m))
+            | Err -> Ret (Err, m)
+            | Panic -> Ret (Panic, m)))
+     | Upper ->
+       (match memo_lookup m input ops with
+        | Some out -> Ret ((Ok out), m)
+        | None ->
+          pbind (impl_run e dbg ops input) (fun r ->
+            match r with
+            | Ok out -> Ret ((Ok out), (((input, ops), out) :: m))
+            | Err -> Ret (Err, m)
+            | Panic -> Ret (Panic, m)))
+     | Lower ->
+       (match memo_lookup m input ops with
+        | Some out -> Ret ((Ok out), m)
+        | None ->
+          pbind (impl_run e dbg ops input) (fun r ->
+            match r with
+            | Ok out -> Ret ((Ok out), (((input, ops), out) :: m))
+            | Err -> Ret (Err, m)
+            | Panic -> Ret (Panic, m)))
+     | Trim (_, _) ->
+       (match memo_lookup m input ops with
+        | Some out -> Ret ((Ok out), m)
+        | None ->
+          pbind (impl_run e dbg ops input) (fun r ->
+            match r with
+            | Ok out -> Ret ((Ok out), (((input, ops), out) :: m))
+            | Err -> Ret (Err, m)
+            | Panic -> Ret (Panic, m)))
+     | Substring _ ->
+       (match memo_lookup m input ops with
+        | Some out -> Ret ((Ok out), m)
+        | None ->
+          pbind (impl_run e dbg ops input) (fun r ->
+            match r with
+            | Ok out -> Ret ((Ok out), (((input, ops), out) :: m))
+            | Err -> Ret (Err, m)
+            | Panic -> Ret (Panic, m)))
+     | Append _ ->
+       (match memo_lookup m input ops with
+        | Some out -> Ret ((Ok out), m)
+        | None ->
+          pbind (impl_run e dbg ops input) (fun r ->
+            match r with
+            | Ok out -> Ret ((Ok out), (((input, ops), out) :: m))
+            | Err -> Ret (Err, m)
+            | Panic -> Ret (Panic, m)))
+     | Prepend _ ->
+       (match memo_lookup m input ops with
+        | Some out -> Ret ((Ok out), m)
+        | None ->
+          pbind (impl_run e dbg ops input) (fun r ->
+            match r with
+            | Ok out -> Ret ((Ok out), (((input, ops), out) :: m))
+            | Err -> Ret (Err, m)
+            | Panic -> Ret (Panic, m)))
+     | Surround _ ->
+       (match memo_lookup m input ops with
+        | Some out -> Ret ((Ok out), m)
+        | None ->
+          pbind (impl_run e dbg ops input) (fun r ->
+            match r with
+            | Ok out -> Ret ((Ok out), (((input, ops), out) :: m))
+            | Err -> Ret (Err, m)
+            | Panic -> Ret (Panic, m)))
+     | StripAnsi ->
+       (match memo_lookup m input ops with
+        | Some out -> Ret ((Ok out), m)
+        | None ->
+          pbind (impl_run e dbg ops input) (fun r ->
+            match r with
+            | Ok out -> Ret ((Ok out), (((input, ops), out) :: m))
+            | Err -> Ret (Err, m)
+            | Panic -> Ret (Panic, m)))
+     | Filter _ ->
+       (match memo_lookup m input ops with
+        | Some out -> Ret ((Ok out), m)
+        | None ->
+          pbind (impl_run e dbg ops input) (fun r ->
+            match r with
+            | Ok out -> Ret ((Ok out), (((input, ops), out) :: m))
+            | Err -> Ret (Err, m)
+            | Panic -> Ret (Panic, m)))
+     | FilterNot _ ->
+       (match memo_lookup m input ops with
+        | Some out -> Ret ((Ok out), m)
+        | None ->
+          pbind (impl_run e dbg ops input) (fun r ->
+            match r with
+            | Ok out -> Ret ((Ok out), (((input, ops), out) :: m))
+            | Err -> Ret (Err, m)
+            | Panic -> Ret (Panic, m)))
+     | Slice _ ->
+       (match memo_lookup m input ops with
+        | Some out -> Ret ((Ok out), m)
+        | None ->
+          pbind (impl_run e dbg ops input) (fun r ->
+            match r with
+            | Ok out -> Ret ((Ok out), (((input, ops), out) :: m))
+            | Err -> Ret (Err, m)
+            | Panic -> Ret (Panic, m)))
+     | Map _ ->
+       (match memo_lookup m input ops with
+        | Some out -> Ret ((Ok out), m)
+        | None ->
+          pbind (impl_run e dbg ops input) (fun r ->
+            match r with
+            | Ok out -> Ret ((Ok out), (((input, ops), out) :: m))
+            | Err -> Ret (Err, m)
+            | Panic -> Ret (Panic, m)))
+     | Sort _ ->
+       (match memo_lookup m input ops with
+        | Some out -> Ret ((Ok out), m)
+        | None ->
+          pbind (impl_run e dbg ops input) (fun r ->
+            match r with
+            | Ok out -> Ret ((Ok out), (((input, ops), out) :: m))
+            | Err -> Ret (Err, m)
+            | Panic -> Ret (Panic, m)))
+     | Reverse ->
+       (match memo_lookup m input ops with
+        | Some out -> Ret ((Ok out), m)
+        | None ->
+          pbind (impl_run e dbg ops input) (fun r ->
+            match r with
+            | Ok out -> Ret ((Ok out), (((input, ops), out) :: m))
+            | Err -> Ret (Err, m)
+            | Panic -> Ret (Panic, m)))
+     | Unique ->
+       (match memo_lookup m input ops with
+        | Some out -> Ret ((Ok out), m)
+        | None ->
+          pbind (impl_run e dbg ops input) (fun r ->
+            match r with
+            | Ok out -> Ret ((Ok out), (((input, ops), out) :: m))
+            | Err -> Ret (Err, m)
+            | Panic -> Ret (Panic, m)))
+     | Pad (_, _, _) ->
+       (match memo_lookup m input ops with
+        | Some out -> Ret ((Ok out), m)
+        | None ->
+          pbind (impl_run e dbg ops input) (fun r ->
+            match r with
+            | Ok out -> Ret ((Ok out), (((input, ops), out) :: m))
+            | Err -> Ret (Err, m)
+            | Panic -> Ret (Panic, m)))
+     | RegexExtract (_, _) ->
+       (match memo_lookup m input ops with
+        | Some out -> Ret ((Ok out), m)
+        | None ->
+          pbind (impl_run e dbg ops input) (fun r ->
+            match r with
+            | Ok out -> Ret ((Ok out), (((input, ops), out) :: m))
+            | Err -> Ret (Err, m)
+            | Panic -> Ret (Panic, m))))
+
+(** val literal_preview : str -> unit outcome **)
+
+let literal_preview text =
+  if (&&) (forallb is_ws text) (N.leb (utf8_len text) debug_ws_limit)
+  then Ok ()
+  else if N.leb (utf8_len text) debug_literal_limit
+       then Ok ()
+       else if debug_literal_by_chars
+            then Ok ()
+            else omap (fun _ -> ()) (byte_prefix text debug_literal_take)
+
+(** val format_loop_plain :
+    env -> bool -> str -> section list -> str -> memo -> str outcome prog **)
+
+let rec format_loop_plain e dbg input secs acc m =
+  match secs with
+  | [] -> Ret (Ok acc)
+  | s :: rest ->
+    (match s with
+     | Lit l -> format_loop_plain e dbg input rest (app acc l) m
+     | Sec ops ->
+       pbind (apply_section e dbg input ops m) (fun rm ->
+         match fst rm with
+         | Ok out -> format_loop_plain e dbg input rest (app acc out) (snd rm)
+         | Err -> Ret Err
+         | Panic -> Ret Panic))
+
+(** val format_loop_debug :
+    env -> str -> section list -> str -> memo -> str outcome prog **)
+
+let rec format_loop_debug e input secs acc m =
+  match secs with
+  | [] -> Ret (Ok acc)
+  | s :: rest ->
+    (match s with
+     | Lit l ->
+       (match literal_preview l with
+        | Ok _ -> format_loop_debug e input rest (app acc l) m
+        | Err -> Ret Err
+        | Panic -> Ret Panic)
+     | Sec ops ->
+       pbind (apply_section e true input ops m) (fun rm ->
+         match fst rm with
+         | Ok out -> format_loop_debug e input rest (app acc out) (snd rm)
+         | Err -> Ret Err
+         | Panic -> Ret Panic))
+
+(** val impl_format : env -> template -> str -> str outcome prog **)
+
+let impl_format e t x =
+  if t.t_debug
+  then format_loop_debug e x t.t_sections [] []
+  else format_loop_plain e false x t.t_sections [] []
+
+(** val fwi_inputs :
+    env -> bool -> op list -> str list -> memo -> (str list outcome * memo)
+    prog **)
+
+let rec fwi_inputs e dbg ops inputs m =
+  match inputs with
+  | [] -> Ret ((Ok []), m)
+  | i :: rest ->
+    pbind (apply_section e dbg i ops m) (fun rm ->
+      match fst rm with
+      | Ok out ->
+        pbind (fwi_inputs e dbg ops rest (snd rm)) (fun rm' -> Ret
+          ((omap (fun x -> out :: x) (fst rm')), (snd rm')))
+      | Err -> Ret (Err, (snd rm))
+      | Panic -> Ret (Panic, (snd rm)))
+
+(** val fwi_loop :
+    env -> bool -> section list -> str list list -> str list -> nat -> str ->
+    memo -> str outcome prog **)
+
+let rec fwi_loop e dbg secs inputs seps idx acc m =
+  match secs with
+  | [] -> Ret (Ok acc)
+  | s :: rest ->
+    (match s with
+     | Lit l -> fwi_loop e dbg rest inputs seps idx (app acc l) m
+     | Sec ops ->
+       let section_inputs = nth idx inputs [] in
+       let separator = nth idx seps ((Npos (XO (XO (XO (XO (XO XH)))))) :: [])
+       in
+       (match section_inputs with
+        | [] -> fwi_loop e dbg rest inputs seps (S idx) acc m
+        | i :: l ->
+          (match l with
+           | [] ->
+             pbind (apply_section e dbg i ops m) (fun rm ->
+               match fst rm with
+               | Ok out ->
+                 fwi_loop e dbg rest inputs seps (S idx) (app acc out)
+                   (snd rm)
+               | Err -> Ret Err
+               | Panic -> Ret Panic)
+           | _ :: _ ->
+             pbind (fwi_inputs e dbg ops section_inputs m) (fun rm ->
+               match fst rm with
+               | Ok outs ->
+                 fwi_loop e dbg rest inputs seps (S idx)
+                   (app acc (join separator outs)) (snd rm)
+               | Err -> Ret Err
+               | Panic -> Ret Panic))))
+
+(** val impl_format_with_inputs :
+    env -> template -> str list list -> str list -> str outcome prog **)
+
+let impl_format_with_inputs e t inputs seps =
+  fwi_loop e t.t_debug t.t_sections inputs seps O [] []
+
+(** val seg_out : env -> str -> section -> str outcome **)
+
+let seg_out e x = function
+| Lit l -> Ok l
+| Sec ops -> spec_run e ops x
+
+(** val spec_format : env -> section list -> str -> str outcome **)
+
+let spec_format e secs x =
+  omap concat (mapM (seg_out e x) secs)
+
+(** val spec_fwi :
+    env -> section list -> str list list -> str list -> nat -> str list
+    outcome **)
+
+let rec spec_fwi e secs inputs seps idx =
+  match secs with
+  | [] -> Ok []
+  | s :: rest ->
+    (match s with
+     | Lit l -> omap (fun x -> l :: x) (spec_fwi e rest inputs seps idx)
+     | Sec ops ->
+       bind (mapM (spec_run e ops) (nth idx inputs [])) (fun outs ->
+         omap (fun x ->
+           (join (nth idx seps ((Npos (XO (XO (XO (XO (XO XH)))))) :: []))
+             outs) :: x) (spec_fwi e rest inputs seps (S idx))))
+
+(** val spec_format_with_inputs :
+    env -> section list -> str list list -> str list -> str outcome **)
+
+let spec_format_with_inputs e secs inputs seps =
+  omap concat (spec_fwi e secs inputs seps O)
 
 (** val x_run_pure_impl : env -> bool -> op list -> str -> str outcome **)
 
@@ -1801,3 +2517,40 @@ let x_apply_range_str =
 
 let x_select_str =
   select
+
+(** val x_infer : op list -> kind option **)
+
+let x_infer =
+  infer
+
+(** val x_well_typed : op list -> bool **)
+
+let x_well_typed =
+  well_typed
+
+(** val x_last_sep : op list -> str **)
+
+let x_last_sep =
+  last_sep
+
+(** val x_format_pure : env -> template -> str -> str outcome **)
+
+let x_format_pure e t x =
+  run_pure (impl_format e t x)
+
+(** val x_spec_format : env -> section list -> str -> str outcome **)
+
+let x_spec_format =
+  spec_format
+
+(** val x_fwi_pure :
+    env -> template -> str list list -> str list -> str outcome **)
+
+let x_fwi_pure e t inputs seps =
+  run_pure (impl_format_with_inputs e t inputs seps)
+
+(** val x_spec_fwi :
+    env -> section list -> str list list -> str list -> str outcome **)
+
+let x_spec_fwi =
+  spec_format_with_inputs
